@@ -972,6 +972,38 @@ func e2eInner(t *testing.T) {
 			}
 		}
 	}
+	// the program started with -default_route=false: the address of the ACK is configured, the router it announced is withheld
+	if alive(cli) && alive(srv) && os.Getenv("VERIF_TIER") != "thorough" {
+		seen("c15")
+		cli.Process.Kill()
+		for i := 0; i < 30 && !exited(cli); i++ {
+			time.Sleep(50 * time.Millisecond)
+		}
+		exec.Command("ip", "-4", "addr", "flush", "dev", "veth1").Run()
+		exec.Command("ip", "-4", "route", "flush", "dev", "veth1").Run()
+		cli, cliLog = start("psa-dhcpc", "-ifname", "veth1", "-default_route=false")
+		defer cli.Process.Kill()
+		until := time.Now().Add(20 * time.Second)
+		for configured() == "" && time.Now().Before(until) {
+			time.Sleep(100 * time.Millisecond)
+		}
+		if configured() == "" {
+			if !alive(cli) {
+				bad("c10", "e2e-died", "psa-dhcpc -default_route=false died: %s", tailStr(cliLog.String(), 600))
+			} else {
+				bad("c15", "e2e-no-lease", "psa-dhcpc -default_route=false did not configure an address within 20 s\n%s", tailStr(cliLog.String(), 800))
+			}
+		} else {
+			time.Sleep(700 * time.Millisecond)
+			if rt := strings.TrimSpace(ipOut("-4", "route", "show", "default")); rt != "" {
+				bad("c15", "e2e-interface", "started with -default_route=false, the program installed the default route %q", rt)
+			}
+			if got := configured(); !strings.HasPrefix(got, "10.77.0.") || !strings.HasSuffix(got, "/24") {
+				bad("c15", "e2e-interface", "started with -default_route=false, the interface holds %q", got)
+			}
+			cliQuiet = stableSockets(cli.Process.Pid)
+		}
+	}
 	// the interface vanishes under the client: every socket it tries to open from now on fails half-way; none may be left behind
 	if alive(cli) && os.Getenv("VERIF_TIER") != "thorough" {
 		seen("c19")
